@@ -27,7 +27,11 @@ DNSCRYPT_MODREPLACE = {"github.com/ameshkov/dnscrypt/v2@v2.3.0": (
     "textsub:dns\\.WriteToSessionUDP\\(w\\.udpConn\\x2c res\\x2c w\\.sess\\)=>w.udpConn.WriteTo(res\\x2c w.sess),"
     "textsub:dns\\.WriteToSessionUDP\\(l\\x2c reply\\x2c sess\\)=>l.WriteTo(reply\\x2c sess)")}
 WIRE_MODREPLACE = dict(QUIC_MODREPLACE, **DNSCRYPT_MODREPLACE)
-WIRE_INSTRUMENT = "internal/dnsserver=textsub:s\\.udpListener\\.\\(\\*net\\.UDPConn\\)=>s.udpListener.(net.PacketConn)"
+WIRE_INSTRUMENT = ("internal/dnsserver=textsub:s\\.udpListener\\.\\(\\*net\\.UDPConn\\)=>s.udpListener.(net.PacketConn);"
+                   # internal/bindtodevice opens its sockets (one per interface and port) on the simulated network.
+                   "internal/bindtodevice=textsub:l\\.listenConf\\.ListenPacket\\(=>verifsim.ListenPacket(l.listenConf\\x2c ,"
+                   "textsub:l\\.listenConf\\.Listen\\(=>verifsim.Listen(l.listenConf\\x2c ,"
+                   "textsub:\\*net\\.UDPConn([\\x2c)])=>verifsim.MsgUDPConn$1")
 
 # The gRPC clients of internal/backendpb dial through the simulated network.
 BPB_INSTRUMENT = ("internal/backendpb=textsub:grpc\\.NewClient\\(apiURL\\.Host\\x2c grpc\\.WithTransportCredentials\\(creds\\)\\)"
@@ -222,7 +226,7 @@ PROPS = {
                  "by the client task's private generator; stream clients also half-close with queries in flight, vanish without "
                  "reading, or send the beginning of one more message and fall silent; the handler takes 0-900 ms per name in half "
                  "of the runs; network per flow: stream segmentation down to single bytes, latencies 0-300ms "
-                 "(reordering), datagram duplication and loss; then, faults off, a fresh query to each listener; "
+                 "(reordering), datagram duplication and loss; then, faults off, a fresh query to each listener; in a share of the runs (tape-chosen) the plain-DNS and DoT servers listen through the real interface listeners of internal/bindtodevice (channel sizes 1, 4 or 64) on simulated sockets; "
                  "every run is non-trivial; distinct = distinct decision-sequence hash"),
         "assumptions": [
             "client tasks and servers are real goroutines whose interleaving the Go scheduler decides; every random choice of a task or a network flow comes from a generator private to it (seeded from the tape), so decisions replay exactly while the order of unrelated goroutines may differ",
@@ -234,7 +238,7 @@ PROPS = {
             "quic-go v0.48.2 runs in a copy whose timers fire 1us after their deadline (it compares now with the deadline strictly, which the exact fake clock never satisfies)",
         ],
         "components": {
-            "real": ["internal/dnsserver: ServerDNS (UDP, TCP), ServerTLS, ServerHTTPS (HTTP/1.1, h2, h3), ServerQUIC, ServerDNSCrypt, normalize, message acceptance", "crypto/tls, net/http, x/net/http2, quic-go, ameshkov/dnscrypt (patched copy) on the simulated network"],
+            "real": ["internal/dnsserver: ServerDNS (UDP, TCP), ServerTLS, ServerHTTPS (HTTP/1.1, h2, h3), ServerQUIC, ServerDNSCrypt, normalize, message acceptance", "crypto/tls, net/http, x/net/http2, quic-go, ameshkov/dnscrypt (patched copy) on the simulated network", "internal/bindtodevice (Manager, interface listeners, channel listeners and packet connections) under the plain-DNS and DoT servers in a third of the runs"],
             "stub": ["network (simnet over netext.ListenConfig)", "handler (deterministic pipeline function)", "clock (synctest)"],
             "sim": "clock: testing/synctest; network: /verif/sim/simnet discrete-event mode with per-flow generators",
         },
@@ -252,7 +256,7 @@ PROPS = {
                  "first serves a history of 1-12 victim queries (unique token names, sizes 30-750 bytes) on every transport so "
                  "that its pooled receive buffers hold their bytes (GC off, one P); then one probe - header only with QDCOUNT=1, "
                  "cut at any offset, ANCOUNT/QDCOUNT/ARCOUNT exceeding the data, cut inside a label; on streams also a length "
-                 "prefix larger or smaller than the payload - goes to A and to the fresh group B; every run is non-trivial; "
+                 "prefix larger or smaller than the payload - goes to A and to the fresh group B; in a share of the runs (tape-chosen) the plain-DNS and DoT servers listen through the real interface listeners of internal/bindtodevice (channel sizes 1, 4 or 64) on simulated sockets; every run is non-trivial; "
                  "distinct = distinct decision-sequence hash"),
         "assumptions": [
             "buffer reuse is made likely, not certain: sync.Pool on one P with the collector off; the evidence counts history messages, not confirmed reuses",
@@ -260,7 +264,7 @@ PROPS = {
             "network without faults: the fault dimension here is the history of the pooled buffers",
         ],
         "components": {
-            "real": ["internal/dnsserver receive paths: UDP, TCP/DoT, DoQ stream, DoH body; syncutil pools"],
+            "real": ["internal/dnsserver receive paths: UDP, TCP/DoT, DoQ stream, DoH body; syncutil pools", "internal/bindtodevice receive path (pooled datagram bodies of the interface listeners) under the warmed plain-DNS and DoT servers in half of the runs"],
             "stub": ["network (simnet)", "handler (pipeline function)"],
             "sim": "clock: testing/synctest; network: /verif/sim/simnet immediate mode",
         },
@@ -279,7 +283,7 @@ PROPS = {
                  "with or without an OPT record of the handler's own; records spread over sections), with request EDNS absent or "
                  "UDP size in {0, 300, 511, 512, 513, 1232, 4096, 65535}, DO, padding, keep-alive, NSID, unknown option; every "
                  "query is sent over UDP, TCP, DoT, DoH (HTTP/2 and HTTP/3), DoQ, DNSCrypt/UDP and DNSCrypt/TCP and judged on the bytes received (for "
-                 "DNSCrypt: the datagram as received and the message inside it); every run is non-trivial; "
+                 "DNSCrypt: the datagram as received and the message inside it); in a share of the runs (tape-chosen) the plain-DNS and DoT servers listen through the real interface listeners of internal/bindtodevice (channel sizes 1, 4 or 64) on simulated sockets; every run is non-trivial; "
                  "distinct = distinct decision-sequence hash"),
         "assumptions": [
             "DNSCrypt runs through a patched copy of ameshkov/dnscrypt v2.3.0 (net.PacketConn instead of *net.UDPConn); a configured maximum of zero (which a configuration cannot have) is not judged on DNSCrypt",
@@ -287,7 +291,7 @@ PROPS = {
             "network without faults: the dimension explored is response size x EDNS settings x configured maximum",
         ],
         "components": {
-            "real": ["internal/dnsserver normalize/truncate, response writers of UDP, TCP, DoT, DoH, DoQ", "miekg/dns Truncate and packing"],
+            "real": ["internal/dnsserver normalize/truncate, response writers of UDP, TCP, DoT, DoH, DoQ", "miekg/dns Truncate and packing", "internal/bindtodevice session writer under plain DNS and DoT in a third of the runs"],
             "stub": ["network (simnet)", "handler (pipeline function with size-by-name responses)"],
             "sim": "clock: testing/synctest; network: /verif/sim/simnet immediate mode",
         },
